@@ -92,12 +92,49 @@ fn div_rem(rng: &mut Rng) -> String {
 }
 
 fn signed_bound(rng: &mut Rng) -> BigInt {
+    // Half of the endpoints come from the values where cast strategies switch: 0, the range-check
+    // bound 2**128 (and one below / above it), the signed bounds, small offsets from them.
+    if rng.chance(1, 2) {
+        let special: [BigInt; 12] = [
+            BigInt::zero(),
+            BigInt::one(),
+            BigInt::from(-1),
+            pow(128) - 1,
+            pow(128),
+            pow(128) + 1,
+            pow(127) - 1,
+            -pow(127),
+            pow(64),
+            BigInt::from(10),
+            BigInt::from(-5),
+            BigInt::from(255),
+        ];
+        let v = rng.pick(&special).clone();
+        return match rng.below(4) {
+            0 => v - BigInt::from(rng.below(2000) as u64),
+            1 => v + BigInt::from(rng.below(2000) as u64),
+            _ => v,
+        };
+    }
     let b = pick_bound(rng, &[0, 7, 8, 16, 31, 64, 96, 100, 127, 128]);
     if rng.chance(1, 3) { -b } else { b }
 }
 
 fn downcast_inst(rng: &mut Rng) -> String {
     let from_felt = rng.chance(1, 2);
+    // A third of the non-felt sources are the standard integer types.
+    let std_src: Option<(&str, BigInt, BigInt)> = if !from_felt && rng.chance(1, 3) {
+        Some(match rng.below(6) {
+            0 => ("u8", BigInt::zero(), BigInt::from(255)),
+            1 => ("i8", BigInt::from(-128), BigInt::from(127)),
+            2 => ("u64", BigInt::zero(), pow(64) - 1),
+            3 => ("i64", -pow(63), pow(63) - 1),
+            4 => ("u128", BigInt::zero(), pow(128) - 1),
+            _ => ("i128", -pow(127), pow(127) - 1),
+        })
+    } else {
+        None
+    };
     let (mut t0, mut t1) = (signed_bound(rng), signed_bound(rng));
     if t0 > t1 {
         std::mem::swap(&mut t0, &mut t1);
@@ -105,6 +142,24 @@ fn downcast_inst(rng: &mut Rng) -> String {
     if from_felt {
         format!(
             "{HEADER}fn gen_downcast(a: felt252) -> felt252 {{\n    match downcast::<felt252, BoundedInt<{t0}, {t1}>>(a) {{ Some(v) => upcast(v), None => 0x1234567 }}\n}}\n",
+            t0 = lit(&t0), t1 = lit(&t1)
+        )
+    } else if let Some((name, lo, hi)) = std_src {
+        // Target inside the source type, so that the cast is a real downcast.
+        if rng.chance(1, 2) {
+            t0 = t0.max(lo.clone()).min(hi.clone());
+            t1 = t1.max(lo.clone()).min(hi.clone());
+            if t0 > t1 {
+                std::mem::swap(&mut t0, &mut t1);
+            }
+            if rng.chance(1, 2) {
+                t1 = hi.clone();
+            } else if rng.chance(1, 2) {
+                t0 = lo.clone();
+            }
+        }
+        format!(
+            "{HEADER}fn gen_downcast(a: {name}) -> felt252 {{\n    match downcast::<{name}, BoundedInt<{t0}, {t1}>>(a) {{ Some(v) => upcast(v), None => 0x1234567 }}\n}}\n",
             t0 = lit(&t0), t1 = lit(&t1)
         )
     } else {
